@@ -23,6 +23,14 @@ pub enum Supplier {
     Biomass { dens: bool, input: Vec<u32>, eta_pct: u32, salida: bool },
 }
 
+/// a cogeneration unit: EL_COGEN production per step (zero at some steps) and one to three fuel inputs,
+/// each with its own profile (so there are steps with fuel input and no electricity)
+#[derive(Clone, Debug, Serialize, Deserialize)]
+pub struct Cogen {
+    pub el: Vec<u32>,
+    pub fuels: Vec<(Car, Vec<u32>)>,
+}
+
 #[derive(Clone, Debug, Serialize, Deserialize)]
 pub enum DemandMode {
     Consistent,
@@ -50,6 +58,8 @@ pub struct DhwCase {
     pub demand: DemandMode,
     /// demand split over two DEMANDA lines
     pub split_demand: bool,
+    #[serde(default)]
+    pub cogen: Option<Cogen>,
 }
 
 fn stepvals(n: usize, hi: u32) -> BoxedStrategy<Vec<u32>> {
@@ -75,6 +85,12 @@ fn supplier(n: usize) -> BoxedStrategy<Supplier> {
     .boxed()
 }
 
+pub const COGEN_FUELS: [Car; 9] = [Car::GASNATURAL, Car::GASOLEO, Car::GLP, Car::CARBON, Car::BIOCARBURANTE, Car::BIOMASA, Car::BIOMASADENSIFICADA, Car::RED1, Car::RED2];
+
+fn cogen(n: usize) -> BoxedStrategy<Cogen> {
+    (stepvals(n, 100_000), vec((select(COGEN_FUELS.to_vec()), stepvals(n, 200_000)), 1..=3)).prop_map(|(el, fuels)| Cogen { el, fuels }).boxed()
+}
+
 pub fn dhw_case(max_steps: usize) -> BoxedStrategy<DhwCase> {
     (1usize..=max_steps)
         .prop_flat_map(|n| {
@@ -96,10 +112,11 @@ pub fn dhw_case(max_steps: usize) -> BoxedStrategy<DhwCase> {
                     any::<bool>(),
                     prop_oneof![9 => Just(DemandMode::Consistent), 1 => Just(DemandMode::Absent), 1 => Just(DemandMode::Zero)],
                     any::<bool>(),
+                    proptest::option::weighted(0.3, cogen(n)),
                 ),
             )
         })
-        .prop_map(|((n, suppliers, aux, pv, other_el, other_nonel, nepb), (red1, red2, loc, k, lm, demand, split_demand))| DhwCase {
+        .prop_map(|((n, suppliers, aux, pv, other_el, other_nonel, nepb), (red1, red2, loc, k, lm, demand, split_demand, cogen))| DhwCase {
             n,
             suppliers,
             aux,
@@ -114,6 +131,7 @@ pub fn dhw_case(max_steps: usize) -> BoxedStrategy<DhwCase> {
             lm,
             demand,
             split_demand,
+            cogen,
         })
         .boxed()
 }
@@ -180,6 +198,12 @@ impl DhwCase {
         if let Some((car, v)) = &self.nepb {
             lines.push(mk(23, Kind::Used { srv: Srv::NEPB, car: *car }, cv(v), ""));
         }
+        if let Some(cg) = &self.cogen {
+            lines.push(mk(30, Kind::Prod { src: Src::EL_COGEN }, cv(&cg.el), ""));
+            for (car, v) in &cg.fuels {
+                lines.push(mk(30, Kind::Used { srv: Srv::COGEN, car: *car }, cv(v), ""));
+            }
+        }
         let mut needs = vec![];
         match self.demand {
             DemandMode::Absent => {}
@@ -208,6 +232,23 @@ impl DhwCase {
             Car::BIOMASA => 1.003f32 as f64 / (1.003f32 as f64 + 0.034f32 as f64),
             Car::BIOMASADENSIFICADA => 1.028f32 as f64 / (1.028f32 as f64 + 0.085f32 as f64),
             _ => 0.0,
+        }
+    }
+
+    /// step A (ren, nren) of a fuel delivered by the grid, from the recognised document (RITE 2014)
+    fn fuel_factor(&self, car: Car) -> (f64, f64) {
+        let u = |t: &Option<[f32; 3]>| t.map(|a| (a[0] as f64, a[1] as f64)).unwrap_or((0.0, 1.3f32 as f64));
+        let f = |a: f32, b: f32| (a as f64, b as f64);
+        match car {
+            Car::GASNATURAL => f(0.005, 1.190),
+            Car::GASOLEO => f(0.003, 1.179),
+            Car::GLP => f(0.003, 1.201),
+            Car::CARBON => f(0.002, 1.082),
+            Car::BIOCARBURANTE | Car::BIOMASADENSIFICADA => f(1.028, 0.085),
+            Car::BIOMASA => f(1.003, 0.034),
+            Car::RED1 => u(&self.red1),
+            Car::RED2 => u(&self.red2),
+            _ => (0.0, 0.0),
         }
     }
 
@@ -274,8 +315,8 @@ impl DhwCase {
                 return Err("biomass_without_output");
             }
         }
-        // on-site electricity used for DHW (incl. auxiliaries), net of the auxiliary share
-        if let Some(pv) = &self.pv {
+        // on-site and cogenerated electricity used for DHW (incl. auxiliaries), net of the auxiliary share
+        if self.pv.is_some() || self.cogen.is_some() {
             let mut el_acs = vec![0.0f64; n];
             let mut el_all = vec![0.0f64; n];
             for s in &self.suppliers {
@@ -285,6 +326,7 @@ impl DhwCase {
                     }
                 }
             }
+            let el_acs_no_aux_an: f64 = el_acs.iter().sum();
             let aux_an = self.aux.as_ref().map(|a| c(a)).unwrap_or(0.0);
             if let Some(a) = &self.aux {
                 for t in 0..n {
@@ -295,16 +337,37 @@ impl DhwCase {
                 el_all[t] = el_acs[t] + self.other_el.as_ref().map(|(_, v)| v[t] as f64 / 100.0).unwrap_or(0.0);
             }
             let el_acs_an: f64 = el_acs.iter().sum();
-            let mut pv_acs = 0.0;
+            let (mut pv_acs, mut chp_acs) = (0.0, 0.0);
             for t in 0..n {
-                let p = pv[t] as f64 / 100.0;
-                if el_all[t] > 0.0 && p > 0.0 {
-                    let f = f_match(p, el_all[t], self.lm);
-                    pv_acs += f * p.min(el_all[t]) * el_acs[t] / el_all[t];
+                let p = self.pv.as_ref().map(|v| v[t] as f64 / 100.0).unwrap_or(0.0);
+                let g = self.cogen.as_ref().map(|cg| cg.el[t] as f64 / 100.0).unwrap_or(0.0);
+                if el_all[t] > 0.0 && p + g > 0.0 {
+                    let f = f_match(p + g, el_all[t], self.lm);
+                    // on-site electricity first, cogenerated electricity on what is left of the use
+                    let upv = p.min(el_all[t]);
+                    let uchp = g.min(el_all[t] - upv);
+                    pv_acs += f * upv * el_acs[t] / el_all[t];
+                    chp_acs += f * uchp * el_acs[t] / el_all[t];
                 }
             }
-            if el_acs_an > 0.0 {
-                q_ren += pv_acs * (1.0 - aux_an / el_acs_an);
+            let non_aux = if el_acs_an > 0.0 { 1.0 - aux_an / el_acs_an } else { 1.0 };
+            q_ren += pv_acs * non_aux;
+            // cogenerated electricity counts in the share that nearby fuels have in the primary energy of its inputs
+            if let Some(cg) = &self.cogen {
+                let any_nearby = cg.fuels.iter().any(|(car, _)| matches!(car, Car::BIOMASA | Car::BIOMASADENSIFICADA | Car::RED1 | Car::RED2));
+                if el_acs_no_aux_an > 0.0 && chp_acs > 0.0 && any_nearby {
+                    let (mut ren_nearby, mut tot) = (0.0, 0.0);
+                    for (car, v) in &cg.fuels {
+                        let (r, nr) = self.fuel_factor(*car);
+                        tot += c(v) * (r + nr);
+                        if matches!(car, Car::BIOMASA | Car::BIOMASADENSIFICADA | Car::RED1 | Car::RED2) {
+                            ren_nearby += c(v) * r;
+                        }
+                    }
+                    if tot > 0.0 {
+                        q_ren += chp_acs * non_aux * ren_nearby / tot;
+                    }
+                }
             }
         }
         Ok(q_ren / d)
